@@ -92,7 +92,7 @@ def run_schema(S, tier, seed, configs, wd, extra_cfg="", machine="view", shapes_
     vlib.write(disp, viewgen.dispatch_cpp(S))
     stla = viewgen.schema_tla(S)
     root, init, nxt, invs, emit_cfg = MACHINES[machine]
-    k = shapes_k or {"view": (10, 48), "cursor": (3, 12), "visit": (6, 30)}[machine][0 if tier == "quick" else 1]
+    k = shapes_k or {"view": (8, 48), "cursor": (2, 12), "visit": (4, 30)}[machine][0 if tier == "quick" else 1]
 
     def tlc_msg(mi):
         m = S["messages"][mi - 1]
